@@ -1,20 +1,22 @@
 """C16 - Sylvester and Green's-function solvers return solutions of their equations."""
 from .common import Decision, run_units
 from .secondq_props import specs_secondq
+from .implicit_props import specs_direct
 from .series_props import specs_solver, fold_canaries
 
 
 def check(tier, seed):
     d = Decision("C16", tier, seed)
-    d.add_units(fold_canaries(run_units(specs_solver(tier) + specs_secondq(tier))))
+    d.add_units(fold_canaries(run_units(specs_solver(tier) + specs_secondq(tier) + specs_direct(tier))))
     d.assumptions += [
         "A-NP2 pointwise models of the numpy / scipy.sparse / sympy-matrix functions used by solve_sylvester_diagonal (listed under assumed_contracts_used)",
         "np.isclose: equal values are close (only this direction is used)",
         "COO representation of a sparse right-hand side is canonical (no duplicate entries)",
     ]
     d.not_decided += [
-        "direct solver (solve_sylvester_direct, direct_greens_function, _constrain_matrix) and KPM solver are not under "
-        "deductive contract in this check: they are covered by the bounded battery section 'solvers' only (scipy LU / KPM convergence are external); "
+        "direct_greens_function / _constrain_matrix, _group_close_energies and the KPM solver are not under deductive contract: they are covered by the bounded "
+        "battery section 'solvers' only (scipy LU, KDTree / argsort grouping, KPM convergence are external); solve_sylvester_direct is under a structural contract "
+        "(which Green's function serves which level / row, projections, sign), its numerical content rests on direct_greens_function; "
         "KPM accuracy is a numerical-analysis statement outside this technique",
         "implicit-mode branches of solve_sylvester_diagonal (vecs_implicit) are not instantiated",
     ]
